@@ -150,7 +150,8 @@ def jeq(a: Any, b: Any) -> bool:
         return len(a) == len(b) and all(jeq(x, y) for x, y in zip(a, b))
     if isinstance(a, dict) and isinstance(b, dict):
         return a.keys() == b.keys() and all(jeq(v, b[k]) for k, v in a.items())
-    return False
+    # values outside JSON (what a custom decoder hands to methods, e.g. Decimal): same type and equal
+    return type(a) is type(b) and bool(a == b)
 
 
 def jnorm(v: Any) -> Any:
